@@ -11,7 +11,7 @@
     by a reader with S3 enabled/disabled under oracle [o] is taken at the end. *)
 From Coq Require Import String Ascii List Bool Arith.
 From Raven Require Import Base.GoStr Model.BlobCodec Model.Blobs Spec.BlobSpec
-  Proof.BlobsInv Proof.Blobs Proof.BlobsWitness.
+  Model.BlobLinks Proof.BlobsInv Proof.Blobs Proof.BlobsWitness Proof.BlobsMono Proof.BlobLinks.
 Import ListNotations.
 
 (** (a)+(d) UNCONDITIONALLY: for every history, every stored part (every
@@ -143,6 +143,68 @@ Theorem c15_give_back_keeps_row :
   find_key bl (key enc content) = Some id /\ decr_ref bl' id = bl.
 Proof. exact give_back_keeps_row. Qed.
 Print Assumptions c15_give_back_keeps_row.
+
+(** ---- removal operations (EXPUNGE, CLOSE, UID EXPUNGE, DELETE mailbox, COPY
+    then expunge the source) by ANY user, interleaved anywhere with stores:
+    the blob table, the bucket and the part rows — hence every read of every
+    user — are those of the history with the removals and copies left out.
+    (raven never gives a blob reference back on expunge.) *)
+Theorem c15_removals_invisible :
+  forall (key : str -> str -> str) (okey : str -> str) (evs : list mevent),
+  m_world (mrun key okey evs) = run key okey (stores_of evs).
+Proof. exact removals_invisible. Qed.
+Print Assumptions c15_removals_invisible.
+
+Theorem c15_removal_anywhere_changes_no_read :
+  forall (key : str -> str -> str) (okey : str -> str) (a b : list mevent) (x : mevent),
+  (exists m, x = MRemove m \/ x = MCopy m) ->
+  m_world (mrun key okey (a ++ x :: b)) = m_world (mrun key okey (a ++ b)).
+Proof. exact removal_anywhere. Qed.
+Print Assumptions c15_removal_anywhere_changes_no_read.
+
+(** ... so (a)+(d) hold after arbitrary removals by other users *)
+Theorem c15_read_own_octets_with_removals :
+  forall (key : str -> str -> str) (okey : str -> str),
+  (forall a b, okey a = okey b -> a = b) -> (forall a, okey a <> []) ->
+  forall (evs : list mevent) (m k : nat) (row : partrow) (reader_s3 : bool) (o : oracle),
+  row_of (m_world (mrun key okey evs)) m k = Some row ->
+  spec_read (r_own row) (read_failed reader_s3 (m_world (mrun key okey evs)) row o)
+            (rd (read_part reader_s3 (m_world (mrun key okey evs)) row o)).
+Proof. exact read_own_octets_with_removals. Qed.
+Print Assumptions c15_read_own_octets_with_removals.
+
+(** blob rows are never removed or rewritten and reference counts never
+    decrease, along every history (any faults) *)
+Theorem c15_refs_only_grow :
+  forall (key : str -> str -> str) (okey : str -> str), (forall a, okey a <> []) ->
+  forall evs more id b,
+  get_blob (w_blobs (run key okey evs)) id = Some b ->
+  exists b', get_blob (w_blobs (run key okey (evs ++ more))) id = Some b' /\
+             b_key b' = b_key b /\ b_form b' = b_form b /\ b_refs b <= b_refs b'.
+Proof. exact run_persists. Qed.
+Print Assumptions c15_refs_only_grow.
+
+(** ---- concurrent sessions: a session's SELECT-by-hash may be stale when its
+    write runs (other sessions stored in between: any table [bl] that the
+    table of the lookup [bl0] persists into).  The write — UPDATE of the row
+    found, else INSERT, which fails on UNIQUE(sha256_hash) if the hash arrived
+    meanwhile — equals the sequential store_blob with SOME database outcome.
+    Every interleaving of statement sequences is therefore a history with a
+    database oracle, for which all theorems above hold (c15_read_own_octets,
+    c15_refcount: every acknowledged part stays readable, counts are exact). *)
+Theorem c15_interleaved_store_is_sequential :
+  forall (key : str -> str -> str) f bl0 bl enc content,
+  persists bl0 bl -> NoDup (map b_key bl) ->
+  exists d0, write_stale key f bl enc content (looked_in key bl0 enc content) = store_blob key f bl enc content d0.
+Proof. exact write_stale_sequential. Qed.
+Print Assumptions c15_interleaved_store_is_sequential.
+
+(** regression examples for the seeded changes C02-4 / C08-4 (wrong code only) *)
+Example c15_wrong_id_release_frees_live_blob :
+  let table := [Some (mkBlob (S_ "h1") (FLocal (S_ "attachment")) 1)] in
+  let bobs_row := mkRow (Some 1) [] [] (S_ "attachment") in
+  release table 1 = [None] /\ r_blob bobs_row = Some 1.
+Proof. exact wrong_id_release_frees_live_blob. Qed.
 
 (** ---- no finding class is left.  Regression examples: the former witnesses
     satisfy the spec, the old observables do not. *)
